@@ -129,7 +129,7 @@ inductive Op
   | ready (h : Nat) (a : Ans)     -- `manual ready h= rdy=`: one `poll_ready` on the persistent handle `h`
   | arriveH (c : Nat) (sc : Step) (keep : Bool) (h : Nat) (a : Ans)   -- `arrive c … h=<h>`: the caller uses handle `h`
   | thread (t : Nat) (prog : List TOp)
-  | sched (s : List Nat)
+  | sched (s : List Limit.Turn)
   | arriveX (c : Nat) (sc : Step) (h : Nat) (a : Ans)   -- `arrive c … callpanic=1 [h=<h>]`: the inner `call()` itself panics
 deriving Repr
 
@@ -288,7 +288,7 @@ its first atomic — polling the inner future, dropping it — happens in a turn
 
 | code | turns |
 |---|---|
-| `poll_ready` | load `algorithm.limit()`; load `in_flight`, compare (refused: the operation ends) |
+| `poll_ready` | load `algorithm.limit()`; load `in_flight`, compare (refused: the operation ends) — the two loads are two turns: the limit compared with may be stale, and so may the comparison be by the time `call` counts the call in (`tchecks`, `TCall.lim` / `.seen` are ghost records of what each check saw) |
 | `call` | `in_flight.fetch_add(1)` (+ guard, `inner.call`); load `algorithm.limit()`; load `current_limit`; store it if different |
 | guard drop | `in_flight.fetch_sub(1)` — **one** read-modify-write |
 | completion block | (inner ready) guard drop; `record_success(0)` / `record_failure()` (`TR.Limit.tstep`); load limit; load / store `current_limit` |
@@ -300,6 +300,16 @@ structure TCall where
   c : Nat
   k : Nat
   o : Out
+  lim  : Nat := 0      -- ghost: the limit the readiness check that admitted this call had loaded
+  seen : Nat := 0      -- ghost: the value of `in_flight` that check loaded
+deriving Repr, Inhabited, DecidableEq
+
+/-- ghost record of one readiness comparison made by a thread (`poll_ready`'s second load) -/
+structure TCheck where
+  tid     : Nat
+  lim     : Nat          -- the limit the thread had loaded (one turn earlier, or more)
+  seen    : Nat          -- the value of `in_flight` it loaded at this turn
+  refused : Bool
 deriving Repr, Inhabited, DecidableEq
 
 /-- where a thread stands inside its current operation: the name of the NEXT yield point -/
@@ -307,7 +317,7 @@ inductive TPh
   | idle                               -- the yield at the beginning of the next operation
   | rdLimit (o : Out)                  -- `poll_ready`: load `algorithm.limit()`
   | rdInFlight (o : Out) (lim : Nat)   -- `poll_ready`: load `in_flight`, compare with `lim`
-  | enter (o : Out)                    -- `call`: `in_flight.fetch_add(1)`
+  | enter (o : Out) (lim seen : Nat)   -- `call`: `in_flight.fetch_add(1)` (`lim`, `seen`: ghost, what the check that passed saw)
   | syncLim                            -- load `algorithm.limit()` for the mirror
   | syncCur (l : Nat)                  -- load `current_limit`
   | syncSt (l : Nat)                   -- store `current_limit`
@@ -335,6 +345,7 @@ structure Shared where
   cur      : Nat := 0
   serial   : Nat := 0
   log      : List Ev := []
+  tchecks  : List TCheck := []   -- ghost: every readiness comparison the threads of this round have made
 deriving Repr
 
 structure TState where
@@ -378,48 +389,58 @@ def relStep (sh : Shared) (th : TThread) (polled : Bool) : Shared × TThread :=
   | [] => (sh, tdone th)
   | cl :: rest => ({ sh with inFlight := sh.inFlight - 1 }, afterRel { th with calls := rest } polled cl.o)
 
-def feedStep (cfg : Cfg) (sh : Shared) (th : TThread) (lt : Limit.Thread) (sync : Bool) : Shared × TThread :=
-  let r := Limit.tstep cfg sh.alg lt
+def feedStep (cfg : Cfg) (sh : Shared) (th : TThread) (lt : Limit.Thread) (sync : Bool) (weak : Bool := false) :
+    Shared × TThread :=
+  let r := Limit.tstepW cfg sh.alg lt weak
   if r.2.prog.isEmpty then
     ({ sh with alg := r.1 },
      if sync then { th with ph := .syncLim } else tdone { th with out := th.out ++ r.2.out.map toString })
   else ({ sh with alg := r.1 }, { th with ph := .feed r.2 sync })
 
 /-- `call()`: the counter goes up, the guard exists, the inner call is made — one turn -/
-def enterStep (sh : Shared) (tid : Nat) (th : TThread) (o : Out) : Shared × TThread :=
+def enterStep (sh : Shared) (tid : Nat) (th : TThread) (o : Out) (lim seen : Nat := 0) : Shared × TThread :=
   ({ sh with inFlight := sh.inFlight + 1, serial := sh.serial + 1,
              log := sh.log ++ [.innerCallX (callerId tid th.nacq) sh.serial (callerId tid th.nacq) true] },
-   { th with calls := th.calls ++ [{ c := callerId tid th.nacq, k := sh.serial, o := o }], nacq := th.nacq + 1, ph := .syncLim })
+   { th with calls := th.calls ++ [{ c := callerId tid th.nacq, k := sh.serial, o := o, lim := lim, seen := seen }],
+             nacq := th.nacq + 1, ph := .syncLim })
 
-/-- one turn of a thread that is not finished -/
-def tstepT (cfg : Cfg) (sh : Shared) (tid : Nat) (th : TThread) : Shared × TThread :=
+/-- the comparison of `poll_ready`: the value of `in_flight` loaded NOW against the limit loaded EARLIER -/
+def checkStep (sh : Shared) (tid : Nat) (th : TThread) (o : Out) (lim : Nat) : Shared × TThread :=
+  if sh.inFlight ≥ lim then
+    ({ sh with tchecks := sh.tchecks ++ [{ tid := tid, lim := lim, seen := sh.inFlight, refused := true }] },
+     tdone { th with out := th.out ++ ["x"] })
+  else
+    ({ sh with tchecks := sh.tchecks ++ [{ tid := tid, lim := lim, seen := sh.inFlight, refused := false }] },
+     { th with ph := .enter o lim sh.inFlight })
+
+/-- one turn of a thread that is not finished; `weak`: a `compare_exchange_weak` (inside the algorithm) fails spuriously -/
+def tstepT (cfg : Cfg) (sh : Shared) (tid : Nat) (th : TThread) (weak : Bool := false) : Shared × TThread :=
   match th.ph with
   | .idle =>
       match th.prog with
       | [] => (sh, th)
       | op :: _ => beginT sh th op
   | .rdLimit o => (sh, { th with ph := .rdInFlight o sh.alg.limit })
-  | .rdInFlight o lim =>
-      if sh.inFlight ≥ lim then (sh, tdone { th with out := th.out ++ ["x"] }) else (sh, { th with ph := .enter o })
-  | .enter o => enterStep sh tid th o
+  | .rdInFlight o lim => checkStep sh tid th o lim
+  | .enter o lim seen => enterStep sh tid th o lim seen
   | .syncLim => (sh, { th with ph := .syncCur sh.alg.limit })
   | .syncCur l => if l = sh.cur then (sh, tdone th) else (sh, { th with ph := .syncSt l })
   | .syncSt l => ({ sh with cur := l }, tdone th)
   | .rel polled => relStep sh th polled
-  | .feed lt sync => feedStep cfg sh th lt sync
+  | .feed lt sync => feedStep cfg sh th lt sync weak
   | .rdIF => (sh, tdone { th with out := th.out ++ [toString sh.inFlight] })
 
-/-- one turn of the schedule, given to thread `tid` -/
-def stepTT (cfg : Cfg) (s : TState) (tid : Nat) : TState :=
-  match s.threads[tid]? with
-  | none => { s with sh := pushLog s.sh (.raw s!"skip {tid}") }
+/-- one turn of the schedule -/
+def stepTT (cfg : Cfg) (s : TState) (t : Limit.Turn) : TState :=
+  match s.threads[t.tid]? with
+  | none => { s with sh := pushLog s.sh (.raw s!"skip {t.render}") }
   | some th =>
-      if th.prog.isEmpty then { s with sh := pushLog s.sh (.raw s!"skip {tid}") }
+      if th.prog.isEmpty then { s with sh := pushLog s.sh (.raw s!"skip {t.render}") }
       else
-        let r := tstepT cfg (pushLog s.sh (.raw s!"step {tid}")) tid th
-        { sh := r.1, threads := s.threads.set tid r.2 }
+        let r := tstepT cfg (pushLog s.sh (.raw s!"step {t.render}")) t.tid th t.isWeak
+        { sh := r.1, threads := s.threads.set t.tid r.2 }
 
-def runSchedT (cfg : Cfg) (s : TState) (sched : List Nat) : TState := sched.foldl (stepTT cfg) s
+def runSchedT (cfg : Cfg) (s : TState) (sched : List Limit.Turn) : TState := sched.foldl (stepTT cfg) s
 
 def firstLiveT (ths : List TThread) : Option Nat := ths.findIdx? (fun th => !th.prog.isEmpty)
 
@@ -429,11 +450,11 @@ def drainT (cfg : Cfg) : Nat → TState → TState
   | n + 1, s =>
       match firstLiveT s.threads with
       | none => s
-      | some t => drainT cfg n (stepTT cfg s t)
+      | some t => drainT cfg n (stepTT cfg s (.run t))
 
 def drainFuelT (s : TState) : Nat := 24 * (s.threads.map (fun th => th.prog.length)).sum + 24
 
-def execT (cfg : Cfg) (s : TState) (sched : List Nat) : TState :=
+def execT (cfg : Cfg) (s : TState) (sched : List Limit.Turn) : TState :=
   let s' := runSchedT cfg s sched
   drainT cfg (drainFuelT s') s'
 
@@ -465,7 +486,7 @@ def tinit (s : State) : TState :=
 
 /-- `manual sched`: the thread programs run under the schedule on clones of this service (the calls of the
 single-threaded callers stay in flight meanwhile); afterwards whatever the threads still hold is dropped -/
-def schedOp (cfg : Cfg) (s : State) (sch : List Nat) : State :=
+def schedOp (cfg : Cfg) (s : State) (sch : List Limit.Turn) : State :=
   let r := execT cfg (tinit s) sch
   if settled r.threads then
     let sh := cleanup r.sh 0 r.threads
